@@ -7,7 +7,6 @@ From PV Require Pagination.Model.
 From PV Require Generated.GenConst.
 Import ListNotations.
 
-Module P := Pagination.Model.
 
 (** prefix.NewStore(store, pfx): the entries under [pfx], keys with the prefix stripped, in key order *)
 Definition sub_store {V} (pfx : bytes) (st : store V) : list (bytes * V) :=
@@ -24,8 +23,8 @@ Section Q.
   Variable bech : bytes -> bytes.
 
   (** Query/Topics: the names of the topics of one owner *)
-  Definition q_topics (st : aol_state) (owner_s : bytes) (req : option P.page_req)
-    : outcome (list bytes * P.page_res) :=
+  Definition q_topics (st : aol_state) (owner_s : bytes) (req : option Pagination.Model.page_req)
+    : outcome (list bytes * Pagination.Model.page_res) :=
     match unbech owner_s with
     | None => Err cs_grpc 3
     | Some o =>
@@ -39,13 +38,13 @@ Section Q.
               | Err cs c => Err cs c
               | Panic => Panic
               end in
-            as_internal (P.paginate_with on (sub_store (GenConst.aol_topic_prefix ++ cp) st) req)
+            as_internal (Pagination.Model.paginate_with on (sub_store (GenConst.aol_topic_prefix ++ cp) st) req)
         end
     end.
 
   (** Query/Writers: the bech32 addresses of the writers of one topic *)
-  Definition q_writers (st : aol_state) (owner_s topic : bytes) (req : option P.page_req)
-    : outcome (list bytes * P.page_res) :=
+  Definition q_writers (st : aol_state) (owner_s topic : bytes) (req : option Pagination.Model.page_req)
+    : outcome (list bytes * Pagination.Model.page_res) :=
     match unbech owner_s with
     | None => Err cs_grpc 3
     | Some o =>
@@ -59,7 +58,7 @@ Section Q.
               | Err cs c => Err cs c
               | Panic => Panic
               end in
-            as_internal (P.paginate_with on (sub_store (GenConst.aol_writer_prefix ++ cp) st) req)
+            as_internal (Pagination.Model.paginate_with on (sub_store (GenConst.aol_writer_prefix ++ cp) st) req)
         end
     end.
 End Q.
